@@ -43,7 +43,8 @@ def _post(v, old, res):
         z3.Implies(z3.And(z3.Not(has_nr), z3.Not(has_dr)), rnr.isnone), z3.Implies(z3.And(z3.Not(has_cut), z3.Not(has_dr)), rcut.isnone),
         # a returning call was not given all three, nor a step alone, nor a non-positive value
         z3.Not(z3.And(t_nr, t_dr, t_cut)), z3.Not(z3.And(has_dr, z3.Not(t_nr), z3.Not(t_cut))),
-        z3.Implies(has_nr, nr > 0) if False else z3.BoolVal(True),
+        # a single row defines no step (cutoff/(nr-1)): at least two rows are returned
+        z3.Implies(z3.Not(rnr.isnone), rnr.val.z >= 2),
     ]
 
 REG.add(Contract(FILE, '_TabulationCutoff._init_cutoff',
@@ -51,7 +52,7 @@ REG.add(Contract(FILE, '_TabulationCutoff._init_cutoff',
     result=T.Tuple(T.Opt(T.Int), T.Opt(T.Real)),
     ensures=_post,
     post_names=['nr+dr->cutoff', 'nr+cutoff-kept', 'cutoff+dr->k+1-rows', 'nr-positive', 'cutoff-positive', 'nr-omitted-stays-None', 'cutoff-omitted-stays-None',
-                'all-three-rejected', 'step-alone-rejected', 'reserved'],
+                'all-three-rejected', 'step-alone-rejected', 'at-least-two-rows'],
     raises_when=lambda v, old, exc: [z3.BoolVal(exc.cls in ('ConfigParserException',))],
     # the statement's case for the row count: cutoff is a whole multiple k of dr, 1 <= k <= 20000 (grids used in practice)
     robust_when=lambda v: robust_hyps(CUTv(v.self, v.cp_tabulation_section), DRv(v.self, v.cp_tabulation_section)),
